@@ -2,5 +2,8 @@ GROUP = {
     # `emit` + `emit_core` with NO cargo features (no_std, no alloc)
     "stub_sets": [],
     "kani_args": ["-Z", "stubbing"],
-    "modules": ["util", "env", "c05_span", "c15_ids", "c17_level", "c03_frames", "c04_trace"],
+    # value-bag's cast visitor is (mutually) recursive through its internal representation; values in
+    # these harnesses are flat primitives / ids, so two levels suffice. Unwinding assertions stay on.
+    "recursion_caps": [(r"value_bag::internal::cast.*CastVisitor.*::fill", 3)],
+    "modules": ["util", "env", "c05_span", "c15_ids", "c17_level", "c03_frames", "c04_trace", "c19_capture"],
 }
